@@ -871,7 +871,7 @@ def issubscriptedcollectiontype(
         >>> issubscriptedcollectiontype(NewType("Foo", Collection[int]))
         True
     """
-    return iscollectiontype(obj) and issubscriptedgeneric(obj)
+    return iscollectiontype(obj) and issubscriptedgeneric(resolve_supertype(obj))
 
 
 _ArgsT = tp.TypeVar("_ArgsT")
